@@ -56,6 +56,10 @@ package simple
 //@   modifies gSSpawned, gDivErr, gPerm, gInv, gClock
 //@   ensures [C01] as-many-handlers-as-slots: result1 == nil ==> (result0.priority != nil && gSSpawned == result0.priority.opts.HandlersQuantity && result0.priority.opts.HandlersQuantity == opts.HandlersQuantity)
 
+//@ func (*Discipline).Err
+//@   requires [*] dsc != nil && dsc.priority != nil
+//@   ensures [* C07 C15] the-channel-the-inner-discipline-reports-on: result == dsc.priority.err
+
 //@ func Opts.isValid
 //@   ensures [*] (result == nil) <==> (opts.Handle != nil)
 
